@@ -126,6 +126,16 @@ func judgeAmountRoundTrip(c AmountCase, o *vh.Obs) {
 	if err != nil || string(js) != `{"amount":"`+s+`"}` {
 		o.Failf("amount:marshaljson", "json.Marshal = %s, %v", js, err)
 	}
+	// the text written for one value is the caller's: writing other values
+	// afterwards does not change it
+	other := num.MakeAmount(^c.Value, (c.Exp+3)%19)
+	_, _ = other.MarshalText()
+	_ = other.String()
+	_, _ = json.Marshal(holder{Amount: other})
+	_ = num.MakePercentage(c.Value/3+7, 4).String()
+	if string(mt) != s {
+		o.Failf("amount:text-changed-by-later-write", "the bytes MarshalText returned for %q read %q after other values were written", s, mt)
+	}
 	check := func(path string, got num.Amount, err error) {
 		if err != nil {
 			o.Failf("amount:roundtrip-error", "%s: reading back %q failed: %v", path, s, err)
@@ -235,6 +245,13 @@ func judgePercentRoundTrip(c AmountCase, o *vh.Obs) {
 	mt, err := p.MarshalText()
 	if err != nil || string(mt) != s {
 		o.Failf("percent:marshaltext", "MarshalText = %q, %v; String = %q", mt, err, s)
+	}
+	otherP := num.MakePercentage(^c.Value, (c.Exp+3)%17)
+	_, _ = otherP.MarshalText()
+	_ = otherP.String()
+	_ = num.MakeAmount(c.Value/3+7, 2).String()
+	if string(mt) != s {
+		o.Failf("percent:text-changed-by-later-write", "the bytes MarshalText returned for %q read %q after other values were written", s, mt)
 	}
 	check := func(path string, got num.Percentage, err error) {
 		if err != nil {
@@ -681,7 +698,7 @@ func init() {
 	amountRe = loadPattern("amount.json", "Amount")
 	percentRe = loadPattern("percentage.json", "Percentage")
 	vh.Describe(
-		"Round trips: amounts over all of int64 (edges, powers of ten, fewer digits than decimals) x 0-18 decimals; percentages of either sign x 0-16 decimals, including values beyond float64 exactness. Strings: members of the published pattern (1-21 digits per part), near misses by one edit from a hostile alphabet (signs, separators, exponents, spaces, NBSP, non-ASCII digits, empty parts), digit strings straddling int64 with the dot at every position, and a fixed list; each through AmountFromString/UnmarshalText/UnmarshalJSON/encoding-json quoted and bare/YAML. Non-trivial: the string is not a pattern member, or overflows 64 bits, or is within 4 bits of the int64 edge, or the amount is negative with decimals. Reference reader: published regexp AND big-integer range check.",
+		"Round trips (the bytes returned for one value are read again after other values were written: they are the caller's): amounts over all of int64 (edges, powers of ten, fewer digits than decimals) x 0-18 decimals; percentages of either sign x 0-16 decimals, including values beyond float64 exactness. Strings: members of the published pattern (1-21 digits per part), near misses by one edit from a hostile alphabet (signs, separators, exponents, spaces, NBSP, non-ASCII digits, empty parts), digit strings straddling int64 with the dot at every position, and a fixed list; each through AmountFromString/UnmarshalText/UnmarshalJSON/encoding-json quoted and bare/YAML. Non-trivial: the string is not a pattern member, or overflows 64 bits, or is within 4 bits of the int64 edge, or the amount is negative with decimals. Reference reader: published regexp AND big-integer range check.",
 		"the pattern published in data/schemas/num/*.json is the referee for membership",
 		"JSON null (and the literal text null that carries it to UnmarshalText) is a no-op by encoding/json convention",
 		"percentages also accept the documented factor form without % and the empty string (asserted by existing tests)",
